@@ -37,6 +37,11 @@ R15, R16 shared reader rules of C14 (R8 / R9): what a delimited read hands out
     is exactly what the cursor moves over (ASGI: cursor set before the yield;
     sync: no fabricated byte, no blind cursor bump) - "independently of how much
     of each earlier part the application chose to read".
+R17 the RFC 5987 extended filename (`filename*=charset'lang'value`) is refused
+    by nothing but the codec: the matcher's pattern and every test on the
+    charset label between the match and the decoding (own tests, the match test
+    itself, helpers handed the label) admit utf-8 / iso-8859-1 in any letter
+    case - evaluated on probe labels with the module constants folded.
 """
 
 from __future__ import annotations
@@ -200,6 +205,28 @@ def _compare(run, what, fa: Func, fb: Func, na: Norm, nb: Norm):
     for wd in flow.words(da, limit=2, maxlen=60):
         run.sample({'rule': 'R1', 'pair': what, 'accepted_event_trace': wd[:40]})
     diff = flow.language_diff(da, db)
+    inlined_note = []
+    if diff is not None:
+        # the words differ as written: compare again with each side's private helpers (module-level functions of its own module /
+        # methods of its own class called on self, without a suspension point) read in place of their calls - a block moved
+        # verbatim into such a helper gives the word it gave inline (preserving/k4-c13-1).  The verdict is the one of this second,
+        # finer comparison; the violation keeps the key of the first so that it does not depend on what was inlined.
+        ia = Events(p, fa, na, inline=True, filter_factory=_interesting_test)
+        ib = Events(p, fb, nb, inline=True, filter_factory=_interesting_test)
+        dia, dib = ia.dfa(), ib.dfa()
+        if ia.inlined or ib.inlined:
+            for sub_q in sorted(set(ia.inlined + ib.inlined)):
+                run.use(p.funcs[sub_q])
+            diff2 = flow.language_diff(dia, dib)
+            if diff2 is None:
+                run.ok('%s: sync and async variants are event-language-equal once the private helpers %s are read in place of their calls '
+                       '(reader calls with bound folded arguments, catch/raise classes, protocol tests, yields)' % (
+                           what, ', '.join(sorted(set(ia.inlined + ib.inlined)))), '%s ~ %s' % (fa.loc(), fb.loc()), what)
+                na.inline_value = nb.inline_value = None
+                return
+            inlined_note = ['with %s read in place the %s variant alone accepts: %s' % (
+                ', '.join(sorted(set(ia.inlined + ib.inlined))), 'sync' if diff2[1] == 'left-only' else 'async', ' ; '.join(diff2[0][-8:]))]
+        na.inline_value = nb.inline_value = None
     if diff is None:
         run.ok('%s: sync and async variants are event-language-equal (reader calls with bound folded arguments, '
                'catch/raise classes, protocol tests, yields)' % what, '%s ~ %s' % (fa.loc(), fb.loc()), what)
@@ -210,7 +237,7 @@ def _compare(run, what, fa: Func, fb: Func, na: Norm, nb: Norm):
     run.fail('%s: %s and %s differ; event trace accepted by the %s variant only: ... %s' % (
         what, fa.qual, fb.qual, 'sync' if which == 'left-only' else 'async', ' ; '.join(word[-3:])),
              side, 'event-language(%s) %s' % ('sync-only' if which == 'left-only' else 'async-only', ' ; '.join(word[-2:])),
-             where=side.loc(), witness=['trace: ' + ' ; '.join(word[-12:])],
+             where=side.loc(), witness=['trace: ' + ' ; '.join(word[-12:])] + inlined_note,
              runtime_witness='a form body / consumption pattern on which the WSGI and ASGI parsers take different actions')
 
 
@@ -1182,6 +1209,17 @@ def r8_parse_header_fast_path(run):
 PARSE_HEADER = 'falcon.util.mediatypes.parse_header'
 CD_HEADER = b'content-disposition'
 _UTF8 = ('utf-8', 'utf8', 'utf_8', 'u8')
+# str methods that do not change which codec `bytes.decode(<label>)` finds: the codec registry folds the letter case of the label itself
+_CODEC_NEUTRAL = ('lower', 'upper', 'casefold')
+
+
+def _strip_codec_neutral(e):
+    """(<inner expression>, [fold names, innermost first]) of `<inner>.lower()` ... chains"""
+    names = []
+    while isinstance(e, ast.Call) and isinstance(e.func, ast.Attribute) and e.func.attr in _CODEC_NEUTRAL and not e.args and not e.keywords:
+        names.append(e.func.attr)
+        e = e.func.value
+    return e, names[::-1]
 # accessor -> Content-Disposition parameter it reports (RFC 7578 section 4.2); extended = RFC 5987 `<param>*` form is honoured
 _PARAM_ACCESSORS = (('name', 'name', False), ('filename', 'filename', True))
 # the one documented decoding of a parameter value (filename* only): frozen shape, see _rfc5987_shape
@@ -1200,6 +1238,7 @@ class _ExactParam:
         self.defs = Defs(f)
         self.records: List[tuple] = []       # (ok, what, func, construct, runtime witness)
         self.parsers: List[str] = []
+        self.ext: List[dict] = []            # the recognised RFC 5987 decodings (read by R17)
 
     # ------------------------------------------------------------ def-use
     def stores(self, f: Func, attr: str) -> List[ast.AST]:
@@ -1485,9 +1524,18 @@ class _ExactParam:
         if uq != 'urllib.parse.unquote_to_bytes':
             return 'the percent-decoder is %s, not urllib.parse.unquote_to_bytes' % uq
         raw, cs = t.func.value.args[0], t.args[0]
+        cs, _at_use = _strip_codec_neutral(cs)       # `.decode(charset.lower())`: same codec (the registry folds the case itself)
         if not (isinstance(raw, ast.Name) and isinstance(cs, ast.Name)):
             return 'raw value / charset are not locals'
         dr, dc = defs.defs.get(raw.id, []), defs.defs.get(cs.id, [])
+        # `charset = charset.lower()`: a case-folding rebinding of the label is the same label for the codec
+        rebinds = []
+        for d_ in dc:
+            if d_[0] == 'assign':
+                inner, names = _strip_codec_neutral(d_[1])
+                if names and isinstance(inner, ast.Name) and inner.id == cs.id:
+                    rebinds.append((d_[2], names))
+        dc = [d_ for d_ in dc if not any(d_[2] is r[0] for r in rebinds if d_[0] == 'assign')]
         if not (len(dr) == 1 and len(dc) == 1 and dr[0][0] == 'unpack' and dc[0][0] == 'unpack' and dr[0][2] is dc[0][2] and len(dr[0][3].elts) == 2):
             return 'raw value and charset are not unpacked from one two-element value'
         if (dc[0][1], dr[0][1]) != (0, 1):
@@ -1518,12 +1566,16 @@ class _ExactParam:
         if not sites:
             return 'store of the decoded value not found in the control-flow graph'
 
+        def the_m(x):           # `m`, `(m := <the one binding of m>)` (an assignment expression in the test itself; k4-c13-3)
+            return (isinstance(x, ast.Name) and x.id == mname) or (
+                isinstance(x, ast.NamedExpr) and isinstance(x.target, ast.Name) and x.target.id == mname and x.value is m)
+
         def none_cmp(x, ops):
-            return (isinstance(x, ast.Compare) and len(x.ops) == 1 and isinstance(x.ops[0], ops) and isinstance(x.left, ast.Name) and x.left.id == mname
+            return (isinstance(x, ast.Compare) and len(x.ops) == 1 and isinstance(x.ops[0], ops) and the_m(x.left)
                     and isinstance(x.comparators[0], ast.Constant) and x.comparators[0].value is None)
 
         def is_m(x):            # `m`, `m is not None`
-            return (isinstance(x, ast.Name) and x.id == mname) or none_cmp(x, (ast.IsNot, ast.NotEq))
+            return the_m(x) or none_cmp(x, (ast.IsNot, ast.NotEq))
 
         def is_no_m(x):         # `m is None`
             return none_cmp(x, (ast.Is, ast.Eq))
@@ -1537,6 +1589,9 @@ class _ExactParam:
         if not all(any(flow.dominated_by_edge(cfg, s.id, e) for e in edges) for s in sites):
             return 'not dominated by a test that the extended parameter matched'
         self.table_rx = self.p.fold(f.module, rx.args[0])
+        if not any(x['decode'] is t for x in self.ext):
+            self.ext.append({'func': f, 'defs': defs, 'decode': t, 'label': cs.id, 'rebinds': rebinds, 'match': mname, 'method': m.func.attr, 'sites': [s.id for s in sites],
+                             'edges': edges, 'regex': rx, 'regex_module': mod, 'pattern': self.table_rx})
         return None
 
     # ------------------------------------------------------------ verdicts
@@ -1563,6 +1618,7 @@ class _ExactParam:
                     if q not in self.parsers:
                         self.parsers.append(q)
                 self.records += sub.records
+                self.ext += [x for x in sub.ext if not any(y['decode'] is x['decode'] for y in self.ext)]
                 self.table_rx = getattr(sub, 'table_rx', getattr(self, 'table_rx', None))
                 n_raw += 1
                 self.records.append((True, 'BodyPart.%s hands out the value of the inherited accessor unchanged' % f.name, f, t, rw))
@@ -2352,6 +2408,361 @@ def r14_media_drain(run):
         _r14(run, 'ASGI', ga, p.cls(ASGI_PART))
 
 
+# ---------------------------------------------------------------------------
+# R17 the extended filename is refused by nothing but the codec (seeded change s11-c13-2)
+# ---------------------------------------------------------------------------
+# "each part comes back with the encoded ... filename (plain or RFC 5987 extended)": for `filename*=charset'lang'value` the only
+# legal reject is the codec primitive itself (`bytes.decode(charset)`: LookupError for an unknown label, UnicodeDecodeError for bad
+# bytes).  Charset labels are case-insensitive (RFC 5987 3.2.1 / RFC 2978 2.3; `bytes.decode` folds them), and RFC 5987 itself and
+# falcon's own `Response.downloadable_as` spell the label `UTF-8`.  So any ADDITIONAL veto on the label - a test on the way from the
+# match to the decoding one of whose outcomes never reaches the decoding - must admit utf-8 and iso-8859-1 in any letter case, and so
+# must the matcher's pattern.  Decided by evaluating the test (small interpreter below; nothing of falcon is run) on the probe labels
+# with module constants folded from the source: membership / equality against constants, .lower() / .upper() / .casefold() / .strip()
+# of the label, and / or / not, locals bound once, one-expression project helpers, statement helpers that are handed the label (their
+# own tests are judged against their normal return).  A probe that certainly takes the refusing outcome is a violation; a test on the
+# label that cannot be evaluated is an unknown idiom.  The matcher: the pattern constant (flags folded) is given to the interpreter's
+# `re` on `<label>''%41` and `<label>'en'%41` (membership of five words in the regular language of a source constant).
+
+CHARSET_PROBES = ('utf-8', 'UTF-8', 'Utf-8', 'iso-8859-1', 'ISO-8859-1')
+_STR_FOLDS = ('lower', 'upper', 'casefold', 'strip', 'title', 'swapcase', 'capitalize')
+_RE_FLAGS = ('I', 'IGNORECASE', 'A', 'ASCII', 'X', 'VERBOSE', 'S', 'DOTALL', 'M', 'MULTILINE', 'U', 'UNICODE')
+
+
+class _LabelTests:
+    """Tests of one function on a string label held by a local / parameter; evaluation for label == probe."""
+
+    MATCH = object()         # "the match object" (truthy, not None)
+
+    def __init__(self, p, f: Func, label: str, match: Optional[str] = None, rebinds=()):
+        from .c13_helpers import Defs
+        self.p, self.f, self.label, self.match, self.rebinds = p, f, label, match, list(rebinds)
+        self.defs = Defs(f)
+        self.read = 0
+        self.pre: List[str] = []          # case folds the label local has gone through at the point judged (see at())
+
+    def at(self, cfg, nid: int):
+        """fix the program point: which case-folding rebinding of the label local (`label = label.lower()`) has happened there"""
+        self.pre = []
+        if not self.rebinds:
+            return
+        if len(self.rebinds) > 1:
+            raise UnknownIdiom('%s: the charset label `%s` is rebound more than once' % (self.f.qual, self.label))
+        tgt, names = self.rebinds[0]
+        rb = [n.id for n in cfg.live_nodes() if n.kind == 'stmt' and any(x is tgt for x in n.walk())]
+        if not rb:
+            raise UnknownIdiom('%s: rebinding of `%s` not found in the control-flow graph' % (self.f.qual, self.label))
+        if nid in rb or nid not in flow.reachable(cfg, rb):
+            return
+        if flow.dominated_by_nodes(cfg, nid, rb):
+            self.pre = list(names)
+            return
+        raise UnknownIdiom('%s: the charset label `%s` is case-folded on some paths to a test on it only' % (self.f.qual, self.label))
+
+    def local_value(self, name: str):
+        if name == self.label or name in self.defs.params:
+            return None
+        return self.defs.single(name)
+
+    def is_label(self, e) -> bool:
+        if isinstance(e, ast.Name) and e.id == self.label:
+            return True
+        # <match>.group(1) / <match>[1]: the charset group itself
+        if self.match is not None:
+            if isinstance(e, ast.Call) and isinstance(e.func, ast.Attribute) and e.func.attr == 'group' and len(e.args) == 1 and not e.keywords \
+                    and isinstance(e.func.value, ast.Name) and e.func.value.id == self.match and isinstance(e.args[0], ast.Constant) and e.args[0].value == 1:
+                return True
+            if isinstance(e, ast.Subscript) and isinstance(e.value, ast.Name) and e.value.id == self.match and isinstance(e.slice, ast.Constant) \
+                    and e.slice.value == 1:
+                return True
+        return False
+
+    def mentions(self, e, depth=0) -> bool:
+        for x in ast.walk(e):
+            if self.is_label(x):
+                return True
+            if isinstance(x, ast.Name) and isinstance(x.ctx, ast.Load) and depth < 4:
+                v = self.local_value(x.id)
+                if v is not None and self.mentions(v, depth + 1):
+                    return True
+        return False
+
+    def helper_expr(self, call: ast.Call):
+        """(Func, returned expression, {param: argument}) of a project helper whose body is one `return <expr>`"""
+        h = self.p.callee(self.f, call)
+        if not isinstance(h, Func) or call.keywords or any(isinstance(a, ast.Starred) for a in call.args):
+            return None
+        body = [b for b in h.node.body if not (isinstance(b, ast.Expr) and isinstance(b.value, ast.Constant) and isinstance(b.value.value, str))]
+        if len(body) != 1 or not isinstance(body[0], ast.Return) or body[0].value is None:
+            return None
+        ps = [a.arg for a in h.node.args.args]
+        if h.cls is not None and ps and 'staticmethod' not in h.decorators:
+            ps = ps[1:]
+        if len(ps) != len(call.args) or h.node.args.vararg or h.node.args.kwarg or h.node.args.kwonlyargs:
+            return None
+        return h, body[0].value, dict(zip(ps, call.args))
+
+    def ev(self, e, probe: str, depth=0, env=None):
+        """concrete value of `e` for label == probe, or UNKNOWN"""
+        if depth > 14:
+            return UNKNOWN
+        d = depth + 1
+        e = strip_await(e)
+        if env is None and self.is_label(e):
+            self.read += 1
+            v = probe
+            if isinstance(e, ast.Name):
+                for nm in self.pre:
+                    v = getattr(v, nm)()
+            return v
+        if isinstance(e, ast.Constant):
+            return e.value
+        if isinstance(e, ast.Name):
+            if env is not None:
+                return env[e.id] if e.id in env else self.p.fold(self.f.module, e, self.f.cls, self.f)
+            if e.id == self.match:
+                return self.MATCH
+            v = self.local_value(e.id)
+            if v is not None:
+                return self.ev(v, probe, d, env)
+            c = self.p.fold(self.f.module, e, self.f.cls, self.f)
+            return c
+        if isinstance(e, (ast.Attribute, ast.Tuple, ast.List, ast.Set, ast.Dict)):
+            c = self.p.fold(self.f.module, e, self.f.cls, self.f)
+            if c is not UNKNOWN:
+                return c
+            if isinstance(e, (ast.Tuple, ast.List, ast.Set)):
+                vs = [self.ev(x, probe, d, env) for x in e.elts]
+                if all(isinstance(v, (str, int, bytes)) for v in vs):
+                    return tuple(vs)
+            return UNKNOWN
+        if isinstance(e, ast.UnaryOp) and isinstance(e.op, ast.Not):
+            v = self.ev(e.operand, probe, d, env)
+            return UNKNOWN if v is UNKNOWN else not v
+        if isinstance(e, ast.BoolOp):
+            unknown, last = False, None
+            for x in e.values:
+                v = self.ev(x, probe, d, env)
+                if v is UNKNOWN:
+                    unknown = True
+                    continue
+                last = v
+                if bool(v) != isinstance(e.op, ast.And):
+                    return UNKNOWN if unknown and not isinstance(v, bool) else v
+            return UNKNOWN if unknown else last
+        if isinstance(e, ast.IfExp):
+            c = self.ev(e.test, probe, d, env)
+            return UNKNOWN if c is UNKNOWN else self.ev(e.body if c else e.orelse, probe, d, env)
+        if isinstance(e, ast.Call) and isinstance(e.func, ast.Attribute) and not e.keywords:
+            recv = self.ev(e.func.value, probe, d, env)
+            if isinstance(recv, str):
+                if e.func.attr in _STR_FOLDS and not e.args:
+                    return getattr(recv, e.func.attr)()
+                if e.func.attr in ('startswith', 'endswith') and len(e.args) == 1:
+                    a = self.ev(e.args[0], probe, d, env)
+                    return getattr(recv, e.func.attr)(a) if isinstance(a, (str, tuple)) and all(isinstance(x, str) for x in ([a] if isinstance(a, str) else a)) \
+                        else UNKNOWN
+                if e.func.attr == 'replace' and len(e.args) == 2:
+                    a, b = self.ev(e.args[0], probe, d, env), self.ev(e.args[1], probe, d, env)
+                    return recv.replace(a, b) if isinstance(a, str) and isinstance(b, str) else UNKNOWN
+        if isinstance(e, ast.Call) and isinstance(e.func, ast.Name) and e.func.id in ('str', 'bool') and len(e.args) == 1 and not e.keywords \
+                and self.p.resolve_expr(self.f.module, e.func, self.f) in (None, 'builtins.' + e.func.id):
+            v = self.ev(e.args[0], probe, d, env)
+            if e.func.id == 'bool':
+                return UNKNOWN if v is UNKNOWN else bool(v)
+            return v if isinstance(v, str) else UNKNOWN
+        if isinstance(e, ast.Call):
+            c = self.p.fold(self.f.module, e, self.f.cls, self.f)
+            if c is not UNKNOWN:
+                return c
+            he = self.helper_expr(e)
+            if he is not None and depth < 6:
+                h, body, binding = he
+                vals = {k: self.ev(a, probe, d, env) for k, a in binding.items()}
+                sub = _LabelTests(self.p, h, '\0no label\0')
+                v = sub.ev(body, probe, d, vals)
+                return v
+            return UNKNOWN
+        if isinstance(e, ast.Compare):
+            left = self.ev(e.left, probe, d, env)
+            for op, ce in zip(e.ops, e.comparators):
+                right = self.ev(ce, probe, d, env)
+                if left is UNKNOWN or right is UNKNOWN:
+                    return UNKNOWN
+                if isinstance(op, (ast.Is, ast.IsNot)) and left is self.MATCH and isinstance(ce, ast.Constant) and ce.value is None:
+                    res = isinstance(op, ast.IsNot)
+                elif left is self.MATCH or right is self.MATCH:
+                    return UNKNOWN
+                elif isinstance(op, (ast.In, ast.NotIn)):
+                    if not (isinstance(left, str) and isinstance(right, (str, tuple, list, frozenset, set, dict))):
+                        return UNKNOWN
+                    res = (left in right) == isinstance(op, ast.In)
+                elif isinstance(op, (ast.Eq, ast.NotEq)):
+                    if not (isinstance(left, str) and isinstance(right, str)):
+                        return UNKNOWN
+                    res = (left == right) == isinstance(op, ast.Eq)
+                else:
+                    return UNKNOWN
+                if not res:
+                    return False
+                left = right
+            return True
+        return UNKNOWN
+
+    def gates(self, cfg, goals, within=None):
+        """[(test node, refusing truth value)]: live tests that mention the label and exactly one of whose outcomes can still reach a goal"""
+        out = []
+        for t in cfg.live_nodes():
+            if t.kind != 'test' or (within is not None and t.id not in within) or not self.mentions(t.ast):
+                continue
+            can = {}
+            for l in ('T', 'F'):
+                tg = [b for (_a, b, _l) in flow.edges_out(cfg, t.id, l)]
+                can[l] = bool(tg) and bool(set(flow.reachable(cfg, tg)) & set(goals))
+            if can['T'] != can['F']:
+                out.append((t, not can['T']))
+        return out
+
+    def judge(self, test) -> Dict[str, object]:
+        """{probe label: True / False / UNKNOWN}"""
+        res = {}
+        for probe in CHARSET_PROBES:
+            v = self.ev(test, probe)
+            res[probe] = UNKNOWN if v is UNKNOWN else bool(v)
+        return res
+
+
+def _r17_gates(run, tag, x, what, rw, seen_helpers, depth=0):
+    """the tests (own and of statement helpers handed the label) between the match and the decoding; number judged"""
+    p, f = run.project, x['func']
+    cfg = cfg_of(f, p)
+    run.use_cfg(cfg)
+    L = _LabelTests(p, f, x['label'], x['match'], x['rebinds'])
+    sites = set(x['sites'])
+    region = {n.id for n in cfg.live_nodes() if any(flow.dominated_by_edge(cfg, n.id, e) for e in x['edges'])}
+    n = 0
+    # (the tests the match edges leave are judged too: `if match and match.group(1) in <set>:` vetoes inside the match test)
+    for t, refusing in L.gates(cfg, sites, within=region | {e[0] for e in x['edges']}):
+        L.at(cfg, t.id)
+        n += _r17_verdict(run, tag, L, f, t, refusing, what, rw)
+    # statement helpers on the way to the decoding that are handed the label
+    before = region & set(flow.co_reachable(cfg, sites))
+    for node in cfg.live_nodes():
+        if node.id not in before or node.id in sites:
+            continue
+        for c in node.calls():
+            if c is x['decode'] or any(c is y for y in ast.walk(x['decode'])):
+                continue
+            idx = [i for i, a in enumerate(c.args) if L.mentions(a)] + [k.arg for k in c.keywords if k.arg and L.mentions(k.value)]
+            if not idx:
+                continue
+            h = p.callee(f, c)
+            if not isinstance(h, Func) or h.qual in seen_helpers or L.helper_expr(c) is not None:
+                continue          # external (codecs.lookup: the primitive; logging) / one-expression helper (read where it is tested)
+            seen_helpers.add(h.qual)
+            run.use(h)
+            ps = [a.arg for a in h.node.args.args]
+            if h.cls is not None and ps and 'staticmethod' not in h.decorators:
+                ps = ps[1:]
+            names = [ps[i] if isinstance(i, int) and i < len(ps) else i for i in idx]
+            names = [nm for nm in names if isinstance(nm, str)]
+            if len(names) != 1 or not all(L.is_label(a) for a in c.args if L.mentions(a)):
+                raise UnknownIdiom('%s: the charset label is handed to %s in a way the rule does not read (%s)' % (f.qual, h.qual, short(c, 70)))
+            hc = cfg_of(h, p)
+            run.use_cfg(hc)
+            HL = _LabelTests(p, h, names[0])
+            for t, refusing in HL.gates(hc, {hc.exit}):
+                n += _r17_verdict(run, tag, HL, h, t, refusing, what, rw)
+    return n
+
+
+def _r17_verdict(run, tag, L, f, t, refusing, what, rw) -> int:
+    L.read = 0
+    res = L.judge(t.ast)
+    bad = [pr for pr in CHARSET_PROBES if res[pr] is refusing]
+    if not bad and any(v is UNKNOWN for v in res.values()):
+        raise UnknownIdiom('%s: the test %s on the charset label of the extended parameter cannot be evaluated on the probe labels' % (
+            f.qual, short(t.ast, 80)))
+    run.check(not bad, '%s %s' % (tag, what), f, t.ast, where='%s:%s' % (f.file, t.lineno),
+              witness=['label %r takes the outcome (%s) of `%s` that never reaches the decoding' % (b, str(refusing).lower(), short(t.ast, 80))
+                       for b in bad] or None,
+              runtime_witness=rw % (bad[0] if bad else 'UTF-8'))
+    return 1
+
+
+def _r17_matcher(run, tag, x, rw):
+    """the matcher's pattern admits <label>'<lang>'<value> for every probe label"""
+    import re as _re
+    p, f, rx = run.project, x['func'], x['regex']
+    flags = 0
+    fl = list(rx.args[1:2]) + [k.value for k in rx.keywords if k.arg == 'flags']
+    if len(rx.args) > 2 or any(k.arg != 'flags' for k in rx.keywords):
+        raise UnknownIdiom('%s: matcher %s is compiled in a way the rule does not read' % (f.qual, short(rx, 70)))
+    for e in fl:
+        parts, stack = [], [e]
+        while stack:
+            y = stack.pop()
+            if isinstance(y, ast.BinOp) and isinstance(y.op, ast.BitOr):
+                stack += [y.left, y.right]
+            else:
+                parts.append(y)
+        for y in parts:
+            q = p.resolve_expr(x['regex_module'], y) or ''
+            if not (q.startswith('re.') and q[3:] in _RE_FLAGS):
+                raise UnknownIdiom('%s: flag %s of matcher %s is not read' % (f.qual, short(y), short(rx, 70)))
+            flags |= int(getattr(_re, q[3:]))
+    try:
+        cre = _re.compile(x['pattern'], flags)
+    except _re.error as err:
+        raise UnknownIdiom('%s: matcher pattern %r does not compile: %s' % (f.qual, x['pattern'], err))
+    bad = []
+    for probe in CHARSET_PROBES:
+        for lang in ('', 'en'):
+            word = "%s'%s'%%41" % (probe, lang)
+            m = getattr(cre, x['method'])(word)
+            if m is None or m.lastindex is None or m.lastindex < 2 or m.group(1) != probe or m.group(2) != '%41':
+                bad.append(word)
+    run.check(not bad, "%s BodyPart.filename: the matcher of the extended parameter admits charset'language'value for the charset labels utf-8 / "
+              "iso-8859-1 in any letter case (with and without a language tag) and hands on the label and the value unchanged" % tag,
+              f, 'matcher %s' % short(rx, 90), where=f.loc(x['decode']),
+              witness=['%r: no match / other groups with pattern %r' % (w, x['pattern']) for w in bad[:4]] or None,
+              runtime_witness=rw % 'UTF-8')
+
+
+def r17_extended_filename_only_codec_rejects(run):
+    """W: Content-Disposition: form-data; name="f"; filename*=UTF-8''%E2%AC%85%20Arrow.txt -> MultipartParseError ("invalid text or
+    charset: UTF-8") from part.filename although the codec knows the label (a lower-case-only allow-list compared case-sensitively)."""
+    p = run.project
+    what = ('BodyPart.filename: no test between the match of the extended parameter and its decoding refuses the charset labels utf-8 / iso-8859-1 '
+            'in any letter case (the codec - LookupError / UnicodeDecodeError of bytes.decode - is the only judge of the label)')
+    rw = "filename*=%s''%%E2%%AC%%85%%20Arrow.txt is refused (400) or loses its name although bytes.decode knows the charset"
+    done = set()
+    for tag, cq in (('WSGI', SYNC_PART), ('ASGI', ASGI_PART)):
+        cls = p.cls(cq)
+        g = p.lookup_method(cq, 'filename')
+        if g is None:
+            from .c13_helpers import property_alias
+            g = property_alias(p, cq, 'filename')
+        if g is None:
+            raise AnchorError('%s.filename not found' % cq)
+        run.use(g)
+        an = _ExactParam(run, g, cls, 'filename', True)
+        an.analyse()
+        if not an.ext:
+            if any(not r[0] for r in an.records):
+                continue        # R10 reports the departure from the tabled decoding; nothing to judge here
+            raise AnchorError('%s: no RFC 5987 decoding of `filename*` recognised' % g.qual)
+        for x in an.ext:
+            key = (x['func'].qual, id(x['decode']))
+            if key in done:
+                run.ok('%s BodyPart.filename: the extended-parameter decoding is inherited unchanged' % tag, g.loc(), '%s.filename' % cq)
+                continue
+            done.add(key)
+            _r17_matcher(run, tag, x, rw)
+            n = _r17_gates(run, tag, x, what, rw, set())
+            if n == 0:
+                run.ok('%s %s [no test on the label there today]' % (tag, what), x['func'].loc(x['decode']), short(x['decode']))
+
+
 def check(run):
     run.assume('reader semantics (C14) are taken as given: read_until(d, n, consume_delimiter=True) returns at most n bytes and '
                'raises DelimiterError unless d follows; pipe_until(d, consume_delimiter=True) skips to and over d')
@@ -2385,3 +2796,5 @@ def check(run):
              'MultipartParseOptions document', floor=3)
     run.rule('R14', r14_media_drain, 'BodyPart.get_media() drains the part stream exactly when the resolved handler sets exhaust_stream (both flavours)',
              floor=4)
+    run.rule('R17', r17_extended_filename_only_codec_rejects, 'BodyPart.filename: the RFC 5987 extended parameter is refused by nothing but the codec - '
+             'the matcher and every test on the charset label admit utf-8 / iso-8859-1 in any letter case', floor=3)
